@@ -1,0 +1,59 @@
+//go:build verif
+
+// Hooks for the deterministic-simulation harness in /verif. This file is only
+// compiled with -tags verif. The call sites are rewritten at check time (see
+// /verif/tools/instrument.py); with all hooks nil they behave as the original
+// code does.
+
+package h2
+
+import (
+	"crypto/tls"
+	"net"
+	"sort"
+)
+
+// VerifDial, when non-nil, replaces tls.Dial for the upstream connection of
+// Config.Proxy.
+var VerifDial func(network, addr string, cfg *tls.Config) (net.Conn, error)
+
+func verifDial(network, addr string, cfg *tls.Config) (net.Conn, error) {
+	if VerifDial != nil {
+		return VerifDial(network, addr, cfg)
+	}
+	c, err := tls.Dial(network, addr, cfg)
+	if err != nil {
+		return nil, err
+	}
+	return c, nil
+}
+
+// VerifOrder, when non-nil, chooses the order in which the per-stream output
+// buffers are visited: it receives the number of buffers and returns a
+// permutation of 0..n-1 applied to the buffers sorted by stream ID. A Go map
+// has no defined iteration order, so every permutation is a legal order.
+var VerifOrder func(n int) []int
+
+func verifOrder(m map[uint32]*outputBuffer) []*outputBuffer {
+	ids := make([]uint32, 0, len(m))
+	for id := range m {
+		ids = append(ids, id)
+	}
+	sort.Slice(ids, func(i, j int) bool { return ids[i] < ids[j] })
+	out := make([]*outputBuffer, 0, len(ids))
+	if VerifOrder != nil {
+		for _, i := range VerifOrder(len(ids)) {
+			out = append(out, m[ids[i]])
+		}
+		return out
+	}
+	for _, id := range ids {
+		out = append(out, m[id])
+	}
+	return out
+}
+
+// VerifNewProcessors builds a Processors pair from caller-supplied sinks.
+func VerifNewProcessors(cToS, sToC Processor) *Processors {
+	return &Processors{cToS: cToS, sToC: sToC}
+}
